@@ -49,10 +49,11 @@ const (
 	c15KWrapped             // SetErr(fmt.Errorf("...: %w", inner))
 	c15KEmptyNoRange        // like empty, but the host reports no covered time range at all (zero First / Last)
 	c15KDup                 // as overlap, and its first row occurs twice in the reply (same labels and attributes): the merge sums them, whoever arrives first
+	c15KSubset              // only rows that other overlap hosts have as well (no row of its own): arriving later, it changes counters but not the number of rows
 	c15NKinds
 )
 
-var c15KindNames = [...]string{"overlap", "disjoint", "empty", "error", "wrapped-error", "empty-no-time-range", "overlap-with-repeated-row"}
+var c15KindNames = [...]string{"overlap", "disjoint", "empty", "error", "wrapped-error", "empty-no-time-range", "overlap-with-repeated-row", "overlap-subset"}
 
 const c15T0 = int64(1700000100) // multiple of 300 and of 900
 
@@ -181,6 +182,9 @@ func c15BuildHost(i, kind int, withTime bool) *c15Host {
 	}
 	own := c15Row{ts: ts(600 + 300*int64(i)), iface: ownIface, host: h.name, hid: "id-" + h.name, sip: fmt.Sprintf("10.1.0.%d", i+1), dport: 8080}
 	switch kind {
+	case c15KSubset:
+		add(0, shared[i%3])
+		add(1, shared[(i+1)%3])
 	case c15KOverlap, c15KDup:
 		add(0, shared[i%3])
 		if kind == c15KDup {
@@ -259,7 +263,7 @@ func c15Result(h *c15Host, m *c15Mode) *results.Result {
 		r.Status = results.Status{Code: types.StatusEmpty, Message: results.ErrorNoResults.Error()}
 	}
 	r.HostsStatuses[h.name] = r.Status
-	if h.kind == c15KOverlap || h.kind == c15KDup {
+	if h.kind == c15KOverlap || h.kind == c15KDup || h.kind == c15KSubset {
 		// the system both endpoints look at reports itself as well (identical entry from every overlap host)
 		r.HostsStatuses["shared"] = results.Status{Code: types.StatusOK}
 	}
@@ -473,7 +477,7 @@ func c15Reference(hs []*c15Host, m *c15Mode) *c15Ref {
 			continue
 		}
 		ref.okHosts = append(ref.okHosts, h.name)
-		if h.kind == c15KOverlap || h.kind == c15KDup {
+		if h.kind == c15KOverlap || h.kind == c15KDup || h.kind == c15KSubset {
 			ref.anyShared = true
 		}
 		ref.totals.Add(h.totals)
@@ -788,7 +792,7 @@ func c15RunScenario(x *explore.Ctx) {
 func init() {
 	register("C15", &explore.Scenario{
 		ID: "C15", Name: "distributed merge: all arrival orders, reference merge, streaming == non-streaming", Level: "model_checking",
-		Rule:  "case = (N, kind of each of the N hosts) for N=2..3 (quick) / 2..5 (thorough) with kinds {rows overlapping other hosts' rows (+1 own row), disjoint rows (host-truncated: hits/totals exceed rows), empty, error, wrapped error, empty without any covered time range, overlapping rows with one row repeated inside the reply}, every host with its own covered time range, interfaces, statistics; per case: query mode (6 quick / 10 thorough: attribute query with limit 1000/3/1/2 and bytes|packets asc|desc; time query unbinned, 15m and 1h bins, with/without truncating limit) x ALL N! arrival orders (one choice per arrival among the hosts not yet delivered) on the channel the real aggregator reads. Each execution runs the real distributed.QueryRunner three times on fresh inputs: Run(order), Run(identity order), RunStreaming(order, recording sse.Sender). Oracles: (ref) reference merge from the statement: rows = union with counters summed per (labels, attributes), with a limit: min(limit, |union|) rows, each one a row of the union with the summed counters (WHICH rows survive is the sort property's subject), totals/stats = sums, Hits.Total = sum of host hits - merged rows (unbinned modes), every failed host present with code error and its (possibly unwrapped) message, every answering host present; (order-dependent:<component>) every component of the canonical result except timings equal to the identity-order run; (streaming-final-differs:<component>) RunStreaming result equal to Run result. When several oracles fire on one input an extra choice point selects which one the execution reports, so no finding masks another. state = (mode, set of hosts merged so far) plus the canonical partial result handed to the sse sender after each answering host; non-trivial = non-identity order with >= 2 answering hosts, distinct by (mode, order, whether rows merged)",
+		Rule:  "case = (N, kind of each of the N hosts) for N=2..3 (quick) / 2..5 (thorough) with kinds {rows overlapping other hosts' rows (+1 own row), disjoint rows (host-truncated: hits/totals exceed rows), empty, error, wrapped error, empty without any covered time range, overlapping rows with one row repeated inside the reply, only rows that other hosts have as well}, every host with its own covered time range, interfaces, statistics; per case: query mode (6 quick / 10 thorough: attribute query with limit 1000/3/1/2 and bytes|packets asc|desc; time query unbinned, 15m and 1h bins, with/without truncating limit) x ALL N! arrival orders (one choice per arrival among the hosts not yet delivered) on the channel the real aggregator reads. Each execution runs the real distributed.QueryRunner three times on fresh inputs: Run(order), Run(identity order), RunStreaming(order, recording sse.Sender). Oracles: (ref) reference merge from the statement: rows = union with counters summed per (labels, attributes), with a limit: min(limit, |union|) rows, each one a row of the union with the summed counters (WHICH rows survive is the sort property's subject), totals/stats = sums, Hits.Total = sum of host hits - merged rows (unbinned modes), every failed host present with code error and its (possibly unwrapped) message, every answering host present; (order-dependent:<component>) every component of the canonical result except timings equal to the identity-order run; (streaming-final-differs:<component>) RunStreaming result equal to Run result. When several oracles fire on one input an extra choice point selects which one the execution reports, so no finding masks another. state = (mode, set of hosts merged so far) plus the canonical partial result handed to the sse sender after each answering host; non-trivial = non-identity order with >= 2 answering hosts, distinct by (mode, order, whether rows merged)",
 		Cases: c15Cases,
 		Bound: func(string) int { return 0 },
 		Run:   c15RunScenario,
